@@ -2,6 +2,7 @@ package main
 
 import (
 	"fmt"
+	"go/types"
 	"strings"
 
 	"golang.org/x/tools/go/ssa"
@@ -12,7 +13,7 @@ func init() {
 		ID: "C24",
 		Decides: "(R24.1) in every Set function of the pool the existence test and the dependent write lie in one exclusive critical section of the pool's set lock; the write happens only on the not-found edge and `stored` is reported only after the write succeeded; " +
 			"(R24.2) ballots are written and read under the same key builder with (stage point, suffrage-confirm flag) of the ballot resp. the query; a proposal and its point index are written in one batch, the index keyed by the proposal fact's (point, proposer, previous block) and holding the fact hash, and lookup by point resolves through that stored hash; " +
-			"(R24.3) cleanup deletes a keyed entry only if its height is unparsable or not above top-minus-depth, depth steps below the newest height, with the configured depths being positive constants set only by the constructor.; (R24.k) every leveldb key builder carries each of its parameters in full under its own prefix constant",
+			"(R24.3) cleanup deletes a keyed entry only if its height is unparsable or not above top-minus-depth, depth steps below the newest height, with the configured depths being positive constants set only by the constructor.; (R24.k) every leveldb key builder carries each of its parameters in full under its own prefix constant; (R24.f) in every storage key a variable-length part is the last part or is preceded by its length frame (two tuples of parts never give one key)",
 		NotDecided: "first-writer-wins across process restarts; two different proposal facts for one (point, proposer, previous block) — the point index keeps the last one; leveldb's own atomicity.",
 		Run:        runC24,
 	})
@@ -64,6 +65,7 @@ func poolCleanDepthRules(c *Ctx, rule string) {
 func runC24(c *Ctx) {
 	c.Rule("R24.k", "KeyTable")
 	keyBuilderRules(c)
+	unframedKeyPartsRule(c, "R24.f")
 	// R24.1 --------------------------------------------------------------------------------------
 	c.Rule("R24.1", "AtomicSection")
 	for _, t := range []struct {
@@ -205,4 +207,139 @@ func retDependsOn(c *Ctx, fn *ssa.Function, pat string) bool {
 		ok = true
 	}
 	return ok
+}
+
+// keyPartKind classifies one []byte part of a storage key: 'f' fixed width, 'l' a length frame
+// (an integer rendering of len(x)), 'v' variable length.
+func keyPartKind(v ssa.Value, depth int) byte {
+	if depth > 6 {
+		return 'v'
+	}
+	switch x := v.(type) {
+	case *ssa.Const:
+		return 'f' // nil part: empty
+	case *ssa.Phi:
+		k := byte('f')
+		for _, e := range x.Edges {
+			if keyPartKind(e, depth+1) == 'v' {
+				k = 'v'
+			}
+		}
+		return k
+	case *ssa.Convert:
+		if _, ok := x.X.(*ssa.Const); ok {
+			return 'f' // []byte("-")
+		}
+		return 'v'
+	case *ssa.ChangeType:
+		return keyPartKind(x.X, depth+1)
+	case *ssa.Call:
+		cc := &x.Call
+		name := CalleeFullName(cc)
+		switch {
+		case cc.IsInvoke():
+			return 'v' // Address.Bytes(), Hash.Bytes(): whatever the implementation gives
+		case strings.HasPrefix(name, "util.Uint64To") || strings.HasPrefix(name, "util.Int64To") || strings.HasPrefix(name, "util.Uint8To"):
+			if len(cc.Args) == 1 {
+				if in, ok := stripConv(cc.Args[0]).(*ssa.Call); ok {
+					if b, isB := in.Call.Value.(*ssa.Builtin); isB && b.Name() == "len" {
+						return 'l'
+					}
+				}
+			}
+			return 'f'
+		case strings.HasSuffix(name, ".Bytes") && len(cc.Args) == 1:
+			// a method of a concrete type: fixed width for the integer and point types of base
+			switch t := cc.Args[0].Type().Underlying().(type) {
+			case *types.Basic:
+				if t.Info()&types.IsInteger != 0 {
+					return 'f'
+				}
+			case *types.Struct:
+				if n, ok := cc.Args[0].Type().(*types.Named); ok && (n.Obj().Name() == "Point" || n.Obj().Name() == "StagePoint") {
+					return 'f'
+				}
+			}
+			return 'v'
+		}
+		return 'v'
+	}
+	return 'v'
+}
+
+// unframedKeyPartsRule: a storage key concatenates its parts; two tuples of parts must not give one
+// key. A variable-length part may therefore only be the last part, unless a length frame precedes
+// it (then where it ends is known).
+func unframedKeyPartsRule(c *Ctx, rule string) {
+	c.Rule(rule, "KeyFraming")
+	n := 0
+	for _, fn := range c.FuncsWithPrefix("isaac/database.leveldb") {
+		if fn.Parent() != nil {
+			continue
+		}
+		for _, call := range c.CallsTo(fn, "storage/leveldb.NewPrefixKey") {
+			cc := callCommon(call)
+			if len(cc.Args) < 2 {
+				continue
+			}
+			sl, ok := cc.Args[1].(*ssa.Slice)
+			if !ok {
+				if k, isC := cc.Args[1].(*ssa.Const); isC && k.IsNil() {
+					continue // no parts
+				}
+				c.Unresolved(fn, "key parts", c.D(cc.Args[1]))
+				continue
+			}
+			arr, ok := sl.X.(*ssa.Alloc)
+			if !ok {
+				c.Unresolved(fn, "key parts", c.D(sl.X))
+				continue
+			}
+			parts := map[int64]ssa.Value{}
+			max := int64(-1)
+			for _, r := range *arr.Referrers() {
+				ia, ok := r.(*ssa.IndexAddr)
+				if !ok {
+					continue
+				}
+				k, isC := ia.Index.(*ssa.Const)
+				if !isC {
+					continue
+				}
+				for _, rr := range *ia.Referrers() {
+					if st, ok := rr.(*ssa.Store); ok && st.Addr == ssa.Value(ia) {
+						parts[k.Int64()] = st.Val
+						if k.Int64() > max {
+							max = k.Int64()
+						}
+					}
+				}
+			}
+			n++
+			c.touch(fn)
+			kinds := ""
+			frames := 0
+			var bad []string
+			for i := int64(0); i <= max; i++ {
+				k := byte('v')
+				if p := parts[i]; p != nil {
+					k = keyPartKind(p, 0)
+				}
+				kinds += string(k)
+				switch {
+				case k == 'l':
+					frames++
+				case k == 'v' && i < max:
+					if frames > 0 {
+						frames--
+					} else {
+						bad = append(bad, fmt.Sprintf("part %d (%s) is of variable length, is not the last part and no length frame precedes it", i, c.D(parts[i])))
+					}
+				}
+			}
+			c.Report(fn, "a variable-length key part is the last part or is framed by its length", call.Pos(), len(bad) == 0,
+				"parts "+kinds+" (f fixed, l length frame, v variable): "+strings.Join(bad, "; "))
+		}
+	}
+	c.Floor(nil, "storage keys built with NewPrefixKey", n, 15)
 }
